@@ -56,7 +56,9 @@ func (e *Exec) Run() {
 			}
 			e.params[parts[0]] = e.materialize("ghost_"+parts[0], tv.Type)
 		}
-		env := &Env{e: e, st: st, old: st, fr: fr, vars: map[string]Value{}, pos: false}
+		// (atCallSite: event-trace predicates in an assumed precondition speak about
+		// the caller's history, which this unit does not see: unconstrained)
+		env := &Env{e: e, st: st, old: st, fr: fr, vars: map[string]Value{}, pos: false, atCallSite: true}
 		for k, v := range e.params {
 			env.vars[k] = v
 		}
@@ -105,7 +107,7 @@ func (e *Exec) implContract() *Contract {
 // implEnv binds the parameter names of a function-type contract to this
 // unit's parameters by position.
 func (e *Exec) implEnv(st *State, fr *Frame, impl *Contract, pos bool) *Env {
-	env := &Env{e: e, st: st, old: e.pre, fr: fr, vars: map[string]Value{}, pos: pos, pkgName: impl.Pkg}
+	env := &Env{e: e, st: st, old: e.pre, fr: fr, vars: map[string]Value{}, pos: pos, pkgName: impl.Pkg, atCallSite: !pos}
 	if e.pre == nil {
 		env.old = st
 	}
